@@ -271,6 +271,10 @@ def judge_relay(cfg, stage, how):
     if stage == 'connect':
         c['connect'] = 'stall'
         script = {}
+    elif stage == 'content':
+        # the peer answers DATA with 354 and then stops reading: the message does not fit its receive window
+        c['capacity'] = 16
+        script = {'read_pause': 100000.0}
     elif stage == 'unsolicited':
         c['unsolicited_partial'] = c['unsolicited_partial'].encode() if isinstance(c['unsolicited_partial'], str) else c['unsolicited_partial']
         script = {}
@@ -317,7 +321,7 @@ def judge_relay(cfg, stage, how):
     out = []
     if stage == 'connect':
         limit = 7.0
-    elif stage.startswith('eod') and not no_dt:
+    elif (stage.startswith('eod') or stage == 'content') and not no_dt:
         limit = 13.0
     else:
         limit = 11.0
@@ -371,6 +375,10 @@ def relay_cases(tier):
                     yield cfg, st, 'trickle99'
         if cfg.get('auth'):
             yield cfg, 'auth', 'stall-after-334'
+    # the peer stops reading in the middle of the message
+    for lmtp in (False, True):
+        for pl in (True, False):
+            yield dict(lmtp=lmtp, pipelining=pl, n=1), 'content', 'stall'
     # only connect and command timeouts configured: the data phase falls back to the command timeout
     for lmtp in (False, True):
         for pl in (True, False):
